@@ -175,6 +175,13 @@ def Chan.empty (C : Chan) : Chan :=
 def Chan.deleteBegin (C : Chan) : Chan :=
   { Chan.empty C with exiting := true, clients := [] }
 
+def Topic.addChan (T : Topic) (C : Chan) : Topic := { T with chans := T.chans ++ [C] }
+
+def Topic.clearQueue (T : Topic) : Topic := { T with queue := [], memLen := 0 }
+
+def Topic.dropChan (T : Topic) (c : String) : Topic :=
+  { T with chans := T.chans.filter (fun X => X.name != c) }
+
 def Topic.filesOf (T : Topic) : List BName :=
   (T.name, none) :: T.chans.map (fun C => (T.name, some C.name))
 
@@ -204,7 +211,7 @@ def step (s : St) : Op → St × Ans
     | some T =>
       match T.getChan c with
       | some _ => (s, Ans.ok)
-      | none => (modTopic s t (fun T => { T with chans := T.chans ++ [newChan c eph] }), Ans.ok)
+      | none => (modTopic s t (fun T => T.addChan (newChan c eph)), Ans.ok)
   | .deleteTopic t =>
     match getTopic s t with
     | none => (s, Ans.noTopic)
@@ -234,12 +241,12 @@ def step (s : St) : Op → St × Ans
           ({ s with topics := s.topics.filter (fun X => X.name != t),
                     files := s.files.filter (fun b => b.1 != t) }, Ans.ok)
         else
-          (modTopic s t (fun T => { T with chans := T.chans.filter (fun X => X.name != c) }), Ans.ok)
+          (modTopic s t (fun T => T.dropChan c), Ans.ok)
   | .emptyTopic t =>
     match getTopic s t with
     | none => (s, Ans.noTopic)
     | some _ =>
-      ({ modTopic s t (fun T => { T with queue := [], memLen := 0 }) with
+      ({ modTopic s t Topic.clearQueue with
           files := removeFiles s.files (t, none) }, Ans.ok)
   | .emptyChan t c =>
     match getChan s t c with
@@ -285,7 +292,7 @@ def step (s : St) : Op → St × Ans
       else if !hasClient C k then (s, Ans.ok)
       else if C.eph && (C.clients.filter (fun x => x.id != k)).isEmpty then
         -- last consumer of an ephemeral channel: deleter.Do(deleteCallback) → Channel.Delete()
-        ({ modChan s t c (fun C => Chan.deleteBegin { C with clients := [] }) with
+        ({ modChan s t c Chan.deleteBegin with
             files := removeFiles s.files (t, some c),
             autoDeleted := s.autoDeleted ++ [(t, c)] }, Ans.ok)
       else
